@@ -9,7 +9,7 @@ from harness import execute, OracleFail, Skip
 from checks import common as cm
 
 ID = 'C03'
-BUDGET = {'quick': 5000, 'thorough': 300000}
+BUDGET = {'quick': 20000, 'thorough': 1000000}
 WALL = {'quick': 100, 'thorough': 1500}
 CHUNK = 50
 RULE = ('case = (3-D/4-D shape, 2-D process grid incl. equal extents and extents of 1, grouping of '
